@@ -212,7 +212,7 @@ func init() {
 		// level 2: full chain
 		if c.Want("chain") {
 			st2 := c.Stat("chain", "enumeration")
-			st2.Bounds = "7 methods x 7 status codes x 14 header sets, 2 identical requests each"
+			st2.Bounds = "7 methods x 7 status codes x 16 header sets (two with an X-Status of the origin's own), 2 identical requests each, then one with Range and one with a validator"
 			cfg := env.BasicConfig(config.CacheConfig{})
 			e := getEnv(cfg, "basic")
 			hs := c03ChainHeaders
@@ -266,6 +266,18 @@ func init() {
 						}
 						if v := an.labelTruth(); v != nil {
 							viol(v.Sig, v.Msg)
+						}
+						// a third request carrying Range / a validator: whatever pike does with it, the label stays truthful
+						for xi, xh := range []http.Header{{"Range": {"bytes=0-3"}}, {"If-None-Match": {`"nope"`}}} {
+							e.Events()
+							r3 := e.Do(env.Req{Method: m, URI: "/c", Rid: "r3", Header: xh})
+							an3 := analyze(e.Events())
+							st2.States++
+							st2.Transitions++
+							if v := an3.labelTruth(); v != nil {
+								kase["third_request"] = xi
+								c.Violation("chain", v.Sig, fmt.Sprintf("third request with %v (status %d, label %s): %s", xh, r3.Status, r3.XStatus, v.Msg), nil, kase, nil)
+							}
 						}
 					}
 				}
@@ -371,6 +383,8 @@ var c03ChainHeaders = []c03Case{
 	{CC: []string{"private, max-age=10"}}, {CC: []string{"Private, max-age=10"}}, {CC: []string{"max-age=10", "NO-STORE"}},
 	{CC: []string{"max-age=10, no-cache"}}, {CC: []string{"max-age=0"}}, {CC: []string{"s-maxage=0, max-age=10"}},
 	{CC: []string{"max-age=10"}, Age: []string{"10"}}, {CC: []string{"max-age=10"}, Age: []string{"9"}}, {Extra: http.Header{"Expires": {"Thu, 01 Dec 2099 16:00:00 GMT"}}},
+	// an origin that is itself a cache and sends its own status label
+	{CC: []string{"private, max-age=10"}, Extra: http.Header{"X-Status": {"hit"}}}, {CC: []string{"max-age=10"}, Extra: http.Header{"X-Status": {"fetching"}}},
 }
 
 func allLower(vs []string) bool {
